@@ -1,7 +1,6 @@
 package sym
 
 import (
-
 	"golang.org/x/tools/go/ssa"
 
 	"verif/engine/term"
@@ -127,8 +126,8 @@ func (x *Exec) stringType() typesType {
 }
 
 // contract returns the enabled summary for fn, if any.
-func (x *Exec) contract(fn *ssa.Function) (intrinsicFn, string) {
-	if len(x.Contracts) == 0 {
+func (p *Path) contract(fn *ssa.Function) (intrinsicFn, string) {
+	if len(p.contracts) == 0 {
 		return nil, ""
 	}
 	name := fn.String()
@@ -148,7 +147,7 @@ func (x *Exec) contract(fn *ssa.Function) (intrinsicFn, string) {
 			}
 		}
 	}
-	if !x.Contracts[short] {
+	if !p.contracts[short] {
 		return nil, ""
 	}
 	return h, short
